@@ -113,8 +113,11 @@ func cmdCheck(args []string) int {
 	tier := fs.String("tier", "quick", "")
 	only := fs.String("func", "", "restrict to functions whose key contains this")
 	keep := fs.Bool("keep", false, "keep SMT scripts")
+	var overlays multiFlag
+	fs.Var(&overlays, "overlay", "path=replacement (repeatable): verify with this file content instead of the file on disk")
 	verbose := fs.Bool("v", false, "")
 	evidenceOut := fs.String("evidence", "", "evidence file (default /verif/evidence/<prop>.json)")
+	replaysOut := fs.String("replays", "", "directory for replay records (default /verif/replays/<prop>)")
 	fs.Parse(args)
 	if t := os.Getenv("VERIF_TIER"); t != "" {
 		*tier = t
@@ -134,7 +137,24 @@ func cmdCheck(args []string) int {
 		fmt.Fprintln(os.Stderr, "infrastructure error: no configuration for property", *prop)
 		return 2
 	}
-	P, err := loadProgram(*repo, cfg.Patterns, nil)
+	var ov map[string][]byte
+	for _, o := range overlays {
+		i := strings.Index(o, "=")
+		if i < 0 {
+			fmt.Fprintln(os.Stderr, "bad --overlay", o)
+			return 2
+		}
+		data, err := os.ReadFile(o[i+1:])
+		if err != nil {
+			fmt.Fprintln(os.Stderr, err)
+			return 2
+		}
+		if ov == nil {
+			ov = map[string][]byte{}
+		}
+		ov[o[:i]] = data
+	}
+	P, err := loadProgram(*repo, cfg.Patterns, ov)
 	if err != nil {
 		fmt.Fprintln(os.Stderr, "infrastructure error: cannot load /repo:", err)
 		return 2
@@ -410,6 +430,7 @@ func cmdCheck(args []string) int {
 	if ev == "" {
 		ev = filepath.Join(verifRoot(), "evidence", *prop+".json")
 	}
+	rep.replayDir = *replaysOut
 	return rep.finish(ev)
 }
 
@@ -469,6 +490,19 @@ func declareOpaque(P *Program, db *SpecDB, ti *TypeInfo) {
 			db.Immutable[typeStr(gt)] = true
 			continue
 		}
+		if od.SameAs != nil {
+			st, err := e.resolveGoType(od.SameAs, od.PkgPath, od.Imports)
+			if err != nil {
+				db.Errors = append(db.Errors, "opaque "+te.String()+": "+err.Error())
+				continue
+			}
+			if s, ok := ti.opaque[typeStr(st)]; ok {
+				ti.opaque[typeStr(gt)] = s
+			} else {
+				db.Errors = append(db.Errors, "opaque "+te.String()+" = "+od.SameAs.String()+": the latter must be declared opaque first")
+			}
+			continue
+		}
 		name := typeStr(gt)
 		if i := strings.LastIndex(name, "/"); i >= 0 {
 			name = name[i+1:]
@@ -522,3 +556,8 @@ func cmdReplay(args []string) int {
 	fmt.Println("violation NOT reproduced on the current tree")
 	return 0
 }
+
+type multiFlag []string
+
+func (m *multiFlag) String() string     { return strings.Join(*m, ",") }
+func (m *multiFlag) Set(v string) error { *m = append(*m, v); return nil }
